@@ -9,8 +9,8 @@ REGISTRY = {}
 
 # property -> (profiles [(name, n_quick, n_thorough)], MC config stem or None)
 CORE = {
-    'C01': dict(profiles=[('lifecycle', 400, 6000), ('overlap', 100, 1500), ('forbid', 100, 1000)], mc='MC_C01'),
-    'C02': dict(profiles=[('overlap', 500, 8000), ('lifecycle', 100, 1000)], mc='MC_C02'),
+    'C01': dict(profiles=[('lifecycle', 350, 6000), ('overlap', 250, 3000), ('sequences', 200, 3000), ('forbid', 100, 1000)], mc='MC_C01'),
+    'C02': dict(profiles=[('overlap', 500, 8000), ('sequences', 150, 2000), ('lifecycle', 100, 1000)], mc='MC_C02'),
     'C03': dict(profiles=[('bounds', 500, 8000), ('overlap', 100, 1000)], mc='MC_C03'),
     'C04': dict(profiles=[('teardown', 500, 8000), ('bounds', 100, 1000)], mc='MC_C04'),
     'C05': dict(profiles=[('sequences', 600, 10000), ('overlap', 100, 2000)], mc=['MC_C05', 'MC_C05b']),
@@ -90,6 +90,11 @@ def run_core(prop, tier, seed, t0, cfgname='TraceCore.cfg'):
     segs = []
     for name, nq, nt in spec['profiles']:
         segs += gen_scripts.gen(name, nq if tier == 'quick' else nt, seed)
+    # every core property also sees a slice of every other profile: the properties are facets of one state machine
+    mine = {p[0] for p in spec['profiles']}
+    for name in sorted(gen_scripts.PROFILES):
+        if name not in mine:
+            segs += gen_scripts.gen(name, 40 if tier == 'quick' else 400, seed + 7, prefix='mix-' + name)
     segs += fixed_segments(prop)
     exhaustive_note = []
     for fn in gen_scripts.EXHAUSTIVE.get(prop, []):
@@ -212,7 +217,7 @@ def teardown_segments(tier, seed):
     out = []
     mc = []
     spec_hash = lib.sha_files([os.path.join(lib.SPEC, f) for f in ('MCTeardown.tla', 'Core.tla', 'Shapes.tla')])
-    for pop in (1, 2, 3):
+    for pop in (1, 2, 3, 4):
         cache = os.path.join(lib.BUILD, 'teardown-%s-P%d.json' % (spec_hash, pop))
         if not os.path.exists(cache):
             work = os.path.join(lib.BUILD, 'work-teardown-%d-%d' % (pop, os.getpid()))
